@@ -425,6 +425,9 @@ def rule_e(ctx):
     from . import dispatch
     dispatch.rule_routing(ctx, 'C13.d', only=['RequestResponseFrame', 'RequestStreamFrame', 'RequestChannelFrame',
                                               'RequestFireAndForgetFrame', 'PayloadFrame'])
+    # ... and the rejection itself leaves the live stream alone (shared C12.b: the receive loop's error branches)
+    from .c12 import rule_b as c12b
+    c12b(ctx)
     rep = ctx.report
     sc = ctx.slots.StreamControl
     f = sc.lookup('register_stream')
